@@ -600,6 +600,9 @@ def gen_c19(tier, rng):
         r = rng.random()
         s = random_bytes(rng, 20) if r < 0.4 else (random_utf8_path(rng, rng.random() < 0.5) if r < 0.8 else random_win_path(rng))
         cases.append(case('c19', s))
+    # pairs: equality / ordering / hash-equality are the same through every owned, boxed, shared, Cow, typed and mixed form
+    pc, _ = gen_pairs('c19p', scale=0.25, fam_filter=lambda f: f in ('u', 'w'))(tier, rng)
+    cases += pc
     return cases, dist
 
 
